@@ -20,7 +20,7 @@ counting ghost.
                   origin chain; publications are accepted only for a strictly newer incarnation.
   h4_history_invalidate : invalidation acts only on the inspected incarnation.
   h6_failed_validation_invalidates_history : (= C02/validate_conflict_retracts) the scheduler side of invalidation: the real Scheduler::validate calls
-                  Beneficiary::invalidate exactly once for every validation that ends in Conflict -- also when the incarnation's write set is empty
+                  Beneficiary::invalidate (at least once) for every validation that ends in Conflict -- also when the incarnation's write set is empty
                   (a fee-recipient-only transaction publishes a history snapshot but no multi-version-memory location).
   h5_beneficiary_read : IncarnationDb::basic(fee recipient) returns exactly the history's resolution, records a Beneficiary read
                   version carrying the whole origin chain, and on an estimate blocks the incarnation (flag + blocker, absent account, no
